@@ -43,7 +43,7 @@ type Unzip struct {
 
 // Call the function with the arguments provided.
 func (f *Unzip) Call(s *slip.Scope, args slip.List, depth int) (result slip.Object) {
-	slip.CheckArgCount(s, depth, f, args, 1, 12)
+	slip.CheckArgCount(s, depth, f, args, 1, 1)
 	data := coerceToBytes(args[0])
 
 	r, err := gzip.NewReader(bytes.NewReader(data))
